@@ -253,7 +253,9 @@ Inductive outcome :=
 | OVals (v : list (outs * list compE))      (* one per wavelength (with the per-atom pieces) *)
 | ORaise (e : err).
 
-Definition has_data (D : ndata) (a : atom) : bool := has_sld (nd_rec D (az a) (aa a)).
+(* the test of the loop of neutron_scattering: element.neutron.b_c is None -> (None, None, None);
+   the number density of the pure element (has_sld) is not asked for: the compound's density is given *)
+Definition has_data (D : ndata) (a : atom) : bool := is_someb (r_bc (nd_rec D (az a) (aa a))).
 
 (* x = 0; for ...: x += term *)
 Definition acc_sum (f : compE -> expr) (l : list compE) : expr :=
